@@ -260,7 +260,7 @@ fn c06_o4_delete_discards() {
     std::mem::forget(w);
 }
 
-// @verif prop=C07,C06 obl=O4 tier=thorough bounds="one page-backed, already discarded tracked struct whose id (symbolic generation < u32::MAX) is on the free list; symbolic new field values and creator stamp"
+// @verif prop=C07,C06,C01,C02 obl=O4 tier=thorough bounds="one page-backed, already discarded tracked struct whose id (symbolic generation < u32::MAX) is on the free list; symbolic new field values and creator stamp"
 // @+ encodes="tracked_struct::IngredientImpl::<VTr>::allocate (free-list branch), crossbeam SegQueue push/pop, Id::next_generation, MemoTable::new"
 /// C07-O4: the next allocation recycles a discarded slot under generation + 1 with fresh field values, revisions and an
 /// empty memo table, so nothing keyed by the old id can match the new one.
